@@ -122,6 +122,15 @@ def count_sweep_partition(tier):
             yield tuple((3, 1, 2)[i % 3] for i in range(n)), k
 
 
+def separating_instances():
+    """the objective-separating instances listed by tools/gen_separating.py (complete enumeration of four (V, n, k) spaces,
+    filtered by an oracle predicate): [(items tuple, k, flags)]"""
+    import json, os
+    p = os.path.join(os.path.dirname(os.path.abspath(__file__)), "data", "separating.json")
+    d = json.load(open(p))
+    return [(tuple(it), k, f) for it, k, f in d["instances"]], d["spaces"]
+
+
 # ---- "large base + small offsets": magnitudes at which a relative tolerance (1e-5, 1e-9) swallows a difference of a few units
 OFFSET_BASES = (10 ** 5, 10 ** 6, 2 ** 24, 10 ** 9)
 
